@@ -29,6 +29,7 @@ def canon (s : SM) : String :=
 structure St where
   ms : List (Nat × SM) := []
   seen : Array String := #[]
+  prepared : List (Nat × Snap) := []     -- snapshots fixed by PrepareSnapshot, not yet saved
 
 def St.get? (st : St) (id : Nat) : Option SM := (st.ms.find? (·.1 == id)).map (·.2)
 def St.set (st : St) (id : Nat) (s : SM) : St := { st with ms := (id, s) :: st.ms.filter (·.1 != id) }
@@ -64,6 +65,19 @@ partial def loop (h : IO.FS.Stream) (st : St) : IO Unit := do
         match st.seen.findIdx? (· == c) with
         | some i => IO.println s!"class {i}"; loop h st
         | none => IO.println s!"class {st.seen.size}"; loop h { st with seen := st.seen.push c }
+    | "prep" =>
+      match st.get? id with
+      | some s => IO.println "ok"; loop h { st with prepared := (id, snapshot s) :: st.prepared.filter (·.1 != id) }
+      | none => IO.println "dead"; loop h st
+    | "unprep" => IO.println "ok"; loop h { st with prepared := st.prepared.filter (·.1 != id) }
+    | "snapprep" =>
+      -- machine `to` installs the snapshot that machine `id` PREPARED earlier (point in time = the prepare)
+      match (st.prepared.find? (·.1 == id)).map (·.2), st.get? (jn j "to") with
+      | some sn, some t =>
+        match recover t sn with
+        | some t' => IO.println "ok"; loop h { (st.set (jn j "to") t') with prepared := st.prepared.filter (·.1 != id) }
+        | none => IO.println "panic"; loop h { st with ms := st.ms.filter (·.1 != jn j "to") }
+      | _, _ => IO.println "dead"; loop h st
     | "snap" =>
       -- machine `to` (fresh or not) installs a snapshot of machine `id`
       match st.get? id, st.get? (jn j "to") with
